@@ -36,7 +36,7 @@ func runC12(c *Ctx) {
 	w := c.W
 	for _, pk := range []struct {
 		rel, fs, tag string
-		std        bool
+		std          bool
 	}{{"sources/flag", "(*flag.FlagSet)", "dialsflag", true}, {"sources/pflag", "(*github.com/spf13/pflag.FlagSet)", "dialspflag", false}} {
 		val := w.fn(pk.rel, "Set.Value")
 		reg := w.fn(pk.rel, "Set.registerFlags")
